@@ -262,7 +262,14 @@ def rule_P3(F, R):
             for a in e["args"]:
                 _has(a, lambda z: z[0] == "K" and lits.add(str(z[1])))
         verb = [e["callee"].split("::")[-1] for e in p0.events if re.search(r"reqwest::.*Client::(get|post|put|delete)$", e["callee"])]
-        headers = [(str(e["args"][1][1]).strip('"') if e["args"][1][0] == "K" else show(e["args"][1]), e["args"][2]) for e in p0.events if e["callee"].endswith("RequestBuilder::header")]
+        def _hname(v):
+            if v[0] == "K":
+                sv = str(v[1]).strip('"')
+                if sv.endswith("header::CONTENT_TYPE"):
+                    return "Content-Type"
+                return sv
+            return show(v)
+        headers = [(_hname(e["args"][1]), e["args"][2]) for e in p0.events if e["callee"].endswith("RequestBuilder::header")]
         urlok = any(doc["path"] in l for l in lits)
         problems = []
         if not urlok:
